@@ -5,7 +5,7 @@ reorganisation (C06, also C02 and C14):
  (A) the consensus layer's caches: election results keyed by the hash of the proof momentum
      (consensus/election.go `generateProducers`, consensus/storage/db.go `Get/StoreElectionResultByHash`) and the
      statistics points of election periods and of epochs keyed by TICK, each stored with the hash of the last momentum
-     of its tick (consensus/points.go `periodPoints.GetPoint`, `compoundPoints.GetPoint`, `points.InsertMomentum`;
+     of its tick (an epoch point is served only while its epoch is finished: b4e9eef) (consensus/points.go `periodPoints.GetPoint`, `compoundPoints.GetPoint`, `points.InsertMomentum`;
      `points.DeleteMomentum` and `electionManager.DeleteMomentum` do nothing);
  (B) the account pool's lazily built per-account managers (chain/account_pool.go `getAccountManager`,
      `DeleteMomentum`, `rebuild`) under `momentumPool.RollbackTo` (chain/momentum_pool.go), which pops one momentum
@@ -138,8 +138,21 @@ def genEpoch (S : Spec El P) (cfg : Cfg) (C : Chain) (c : Caches El P) (T : Nat)
   let v := if finished (cfg.len * cfg.mult) C T then some (headHash cfg.g (endCut (cfg.len * cfg.mult) C T), p) else none
   (some p, { r.2 with ec := upd r.2.ec T v })
 
-/-- `compoundPoints.GetPoint(T)` -/
+/-- `compoundPoints.GetPoint(T)` (since b4e9eef): a stored point is served only if its end hash is the hash the current
+    chain has at the end of the epoch AND the epoch is finished on the current chain; otherwise it is deleted and the
+    point regenerated (`genEpoch` stores it again iff the epoch is finished) -/
 def epochC (S : Spec El P) (cfg : Cfg) (C : Chain) (c : Caches El P) (T : Nat) : Option P × Caches El P :=
+  if started (cfg.len * cfg.mult) C T then
+    match c.ec T with
+    | some (h, p) =>
+      if h = headHash cfg.g (endCut (cfg.len * cfg.mult) C T) ∧ finished (cfg.len * cfg.mult) C T = true then (some p, c)
+      else genEpoch S cfg C c T
+    | none => genEpoch S cfg C c T
+  else (none, c)
+
+/-- the epoch reader before b4e9eef (finding FX1): the end hash alone decides — a point stored when the epoch was
+    finished is served again when a rollback to exactly the epoch's last momentum has made the epoch unfinished -/
+def epochCServeUnfinished (S : Spec El P) (cfg : Cfg) (C : Chain) (c : Caches El P) (T : Nat) : Option P × Caches El P :=
   if started (cfg.len * cfg.mult) C T then
     match c.ec T with
     | some (h, p) => if h = headHash cfg.g (endCut (cfg.len * cfg.mult) C T) then (some p, c) else genEpoch S cfg C c T
